@@ -46,3 +46,10 @@ CASES += [
          old="      std::sort( mDestCont.begin(), mDestCont.end());\n   } // ContainerAdapter< std::deque< T>>::sort",
          new="      std::stable_sort( mDestCont.begin(), mDestCont.end());\n   } // ContainerAdapter< std::deque< T>>::sort"),
 ]
+
+CASES += [
+    dict(id='c06-tuple-end-off-by-one', prop='C06', file='src/celma/common/tuple_at_index.hpp', expect='R3',
+         old="   if (index >= 0)\n      throw std::out_of_range", new="   if (index > 0)\n      throw std::out_of_range"),
+    dict(id='c06-eq-tuple-end-negated', prop='C06', file='src/celma/common/tuple_at_index.hpp', expect=None,
+         old="   if (index >= 0)\n      throw std::out_of_range", new="   if (!(index < 0))\n      throw std::out_of_range"),
+]
